@@ -192,20 +192,26 @@ class Run:
 
 # -- process pool -------------------------------------------------------------
 
-def pool(workers: int | None = None, recycle: int | None = 200, initializer=None, initargs=()) -> cf.ProcessPoolExecutor:
+def pool(workers: int | None = None, recycle: int | None = None, initializer=None, initargs=()) -> cf.ProcessPoolExecutor:
+    # NB: max_tasks_per_child is NOT used: on CPython 3.12.1 a ProcessPoolExecutor deadlocks when workers
+    # reach it under load (observed: a 30-minute hang). Recycling is done by pmap in generations instead.
     ctx = mp.get_context("spawn")
-    return cf.ProcessPoolExecutor(
-        max_workers=workers or NPROC, mp_context=ctx, max_tasks_per_child=recycle, initializer=initializer, initargs=initargs
-    )
+    return cf.ProcessPoolExecutor(max_workers=workers or NPROC, mp_context=ctx, initializer=initializer, initargs=initargs)
 
 
 def pmap(fn: Callable, items: Iterable, workers: int | None = None, recycle: int | None = 200, chunksize: int = 1):
-    """Ordered parallel map (generator). fn must be a module-level function."""
+    """Ordered parallel map (generator). fn must be a module-level function.
+    Workers are recycled every `recycle` tasks (mypy raises the GC thresholds; long-lived workers balloon):
+    the items are processed in generations of workers*recycle, each by a fresh pool."""
     items = list(items)
     if not items:
         return
-    with pool(workers, recycle) as ex:
-        yield from ex.map(fn, items, chunksize=chunksize)
+    w = workers or NPROC
+    gen = len(items) if not recycle else max(w, w * recycle)
+    for lo in range(0, len(items), gen):
+        seg = items[lo : lo + gen]
+        with pool(min(w, len(seg))) as ex:
+            yield from ex.map(fn, seg, chunksize=chunksize)
 
 
 def harness_error(msg: str) -> "None":
